@@ -26,8 +26,20 @@ A property plugin (harness/props/cNN.py) provides:
 import os, sys, json, time, random, subprocess, hashlib, re, fcntl, importlib, traceback, collections
 
 ROOT = os.path.dirname(os.path.dirname(os.path.abspath(__file__)))
-LEAN = os.path.join(ROOT, 'lean')
 REPO = os.environ.get('VERIF_REPO', '/repo')
+LEAN = os.environ.get('VERIF_LEAN') or os.path.join(ROOT, 'lean')
+if not os.environ.get('VERIF_LEAN') and os.path.realpath(REPO) != os.path.realpath('/repo'):
+    # A run against a scratch copy of the library (mutation self-tests, seeded changes) works on a private copy of the
+    # Lean project, so that tables generated from another tree are never written into /verif/lean (where a concurrent
+    # build, or a commit, could pick them up) and several such runs can go on at once.
+    import tempfile, shutil, atexit
+    _tmp = tempfile.mkdtemp(prefix='verif-lean-')
+    with open(os.path.join(LEAN, '.build.lock'), 'w') as _f:
+        fcntl.flock(_f, fcntl.LOCK_EX)
+        shutil.copytree(LEAN, os.path.join(_tmp, 'lean'), symlinks=True)
+    LEAN = os.path.join(_tmp, 'lean')
+    os.environ['VERIF_LEAN'] = LEAN
+    atexit.register(shutil.rmtree, _tmp, True)
 ALLOWED_AXIOMS = {'propext', 'Classical.choice', 'Quot.sound'}
 FORBIDDEN = re.compile(r'\bsorry\b|\badmit\b|^\s*axiom\s|native_decide|bv_decide|implemented_by|\bunsafe\s|maxHeartbeats\s+0', re.M)
 
